@@ -116,7 +116,7 @@ def Sim.world : Sim α → World α
   | .mk w _ _ => w
 
 mutual
-/-- one new date: every shadow copy is stepped with the full loop body (StrategyBase.update l.845-851; it is a separate
+/-- one new date after the first: every shadow copy is stepped with the full loop body (StrategyBase.update l.857-866; it is a separate
     object graph, so when exactly inside the parent's update this happens is immaterial), its price becomes the child's
     `paperPx`, then the loop body runs on the tree itself -/
 def simDay (cfg : Cfg α) (d : Nat) : Sim α → Except Err (Sim α)
@@ -131,19 +131,41 @@ def simPapers (cfg : Cfg α) (d : Nat) : List (List Nat × Sim α) → World α 
     (simPapers cfg d rest w1).map fun (rest', w2) => ((path, s') :: rest', w2)
 end
 
+mutual
+/-- the first date of the data (row 0, the dummy row a `Backtest` prepends): nobody's algos run there - `Backtest.run` only
+    calls `update(dates[0])`, and `StrategyBase.update` steps a shadow copy by `paper.update(date)` alone when `inow == 0` -,
+    so a tree and, recursively, all its shadow copies are only updated; the copies' prices still reach `paperPx` -/
+def simDay0 (cfg : Cfg α) (d : Nat) : Sim α → Except Err (Sim α)
+  | .mk w t papers =>
+    (simPapers0 cfg d papers w).bind fun (papers', w1) =>
+    (updRoot cfg d w1).map fun w2 => .mk w2 t papers'
+def simPapers0 (cfg : Cfg α) (d : Nat) : List (List Nat × Sim α) → World α → Except Err (List (List Nat × Sim α) × World α)
+  | [], w => pure ([], w)
+  | (path, s) :: rest, w =>
+    (simDay0 cfg d s).bind fun s' =>
+    let w1 : World α := { w with root := setPaperPx s'.world.price path w.root }
+    (simPapers0 cfg d rest w1).map fun (rest', w2) => ((path, s') :: rest', w2)
+end
+
 def simLoop (cfg : Cfg α) : List Nat → Sim α → Except Err (Sim α)
   | [], s => pure s
   | d :: ds, s => (simDay cfg d s).bind (simLoop cfg ds)
 
-/-- `Backtest.run()` of a nested tree after `setup`: the root is funded and updated on the synthetic row without
-    running its algos (its shadow copies are stepped with the full body there), then the loop -/
+/-- a shadow copy (already funded) over the dates of its owner's run: updated on the first date, the full loop body on
+    every later date -/
+def simShadow (cfg : Cfg α) : List Nat → Sim α → Except Err (Sim α)
+  | [], s => pure s
+  | d0 :: ds, s => (simDay0 cfg d0 s).bind (simLoop cfg ds)
+
+/-- `Backtest.run()` of a nested tree after `setup`: the root is funded and updated on the first date without
+    running its algos (its shadow copies are only updated there as well: `simPapers0`), then the loop -/
 def simRun (cfg : Cfg α) (capital : α) (dates : List Nat) : Sim α → Except Err (Sim α)
   | .mk w0 t papers =>
     match dates with
     | [] => throw Err.badPath
     | d0 :: ds =>
       (opAdjust w0 [] capital true true).bind fun w1 =>
-      (simPapers cfg d0 papers w1).bind fun (papers', w2) =>
+      (simPapers0 cfg d0 papers w1).bind fun (papers', w2) =>
       (updRoot cfg d0 w2).bind fun w3 => simLoop cfg ds (.mk w3 t papers')
 
 end
